@@ -4,10 +4,10 @@ import os
 from vlib import common as C, coapgen as G
 import props.C01 as B
 
-# clean (exit 0 + KNOWN-FINDING) at seeds 1..5 on 2026-09-26; all four refinement theorems proved since (branch ws-P04).
+# clean (exit 0, no KNOWN-FINDING) at seeds 1..5 on the tree with the Hop-Limit fix (branch ws-P04).
 MANIFEST = {
-    "text": 'Proved in Lean, for every abstract message the API can produce, every argument and every capacity (refusals included): coap_insert_option (append path, the middle path with all six next-option header rewrite cases, implicit Hop-Limit), coap_update_option (in-place replacement of the first match with any length change, else insertion), coap_remove_option (first match removed, following delta re-encoded in all six growth cases, or max_opt falling back) and coap_update_token (all three memmove directions) map the PDU representing an abstract (token, ordered option list, payload) message to the PDU representing the abstract edit of the specification; hence any sequence of such edits never leaves the buffer and ends on the PDU representing the same edits applied to the abstract model (edits_then_roundtrip), which serialises and decodes to exactly that model on udp/tcp/ws whenever it is well-formed — and it is well-formed whenever the start message was and every inserted/updated value respects the RFC length limit of its option (edits_then_roundtrip_wf: hypotheses on the inputs only); the PDU the parser leaves behind for a received message is such a representing PDU (parsed_start_is_refined); plus the frame theorems (an edit changes only the element it names, order kept). The open finding (a refused Proxy-Uri/Proxy-Scheme on a request leaves Hop-Limit=16) is not excluded from the theorems but characterised exactly as the only way a refused call changes the message. The model M is tied to the C code by differential runs (edit sequences up to 45 calls on parsed and built messages, thresholds 13/269 crossed in both directions, tight maximum sizes; I vs M vs S byte for byte, per-call digests).',
-    "note": 'Same trusted base, fixes and open finding as C01. The theorems are about the hand transcription M (Model/Build.lean); M = the compiled code is measured on the generated cases only. The RFC per-option length limits are a hypothesis on the values the caller passes (the API does not enforce them); on tcp the edited message must still fit the 32-bit extended length. M.ofParsed (what coap_pdu_parse leaves in the PDU) is tied to the code by the differential runs. Removal branches are exercised but not individually attributable from the harness output.',
+    "text": 'Proved in Lean, for every abstract message the API can produce, every argument and every capacity (refusals included): coap_insert_option (append path, the middle path with all six next-option header rewrite cases, implicit Hop-Limit), coap_update_option (in-place replacement of the first match with any length change, else insertion), coap_remove_option (first match removed, following delta re-encoded in all six growth cases, or max_opt falling back) and coap_update_token (all three memmove directions) map the PDU representing an abstract (token, ordered option list, payload) message to the PDU representing the abstract edit of the specification; hence any sequence of such edits never leaves the buffer and ends on the PDU representing the same edits applied to the abstract model (edits_then_roundtrip), which serialises and decodes to exactly that model on udp/tcp/ws whenever it is well-formed — and it is well-formed whenever the start message was and every inserted/updated value respects the RFC length limit of its option (edits_then_roundtrip_wf: hypotheses on the inputs only); the PDU the parser leaves behind for a received message is such a representing PDU (parsed_start_is_refined); plus the frame theorems (an edit changes only the element it names, order kept). A refused edit leaves the PDU exactly as it was (the former open finding — a refused Proxy-Uri/Proxy-Scheme on a request left Hop-Limit=16 behind — is fixed in libcoap and M is transcribed from the fixed code). The model M is tied to the C code by differential runs (edit sequences up to 45 calls on parsed and built messages, thresholds 13/269 crossed in both directions, tight maximum sizes; I vs M vs S byte for byte, per-call digests).',
+    "note": 'Same trusted base and fixes as C01; no open finding. The theorems are about the hand transcription M (Model/Build.lean); M = the compiled code is measured on the generated cases only. The RFC per-option length limits are a hypothesis on the values the caller passes (the API does not enforce them); on tcp the edited message must still fit the 32-bit extended length. M.ofParsed (what coap_pdu_parse leaves in the PDU) is tied to the code by the differential runs. Removal branches are exercised but not individually attributable from the harness output.',
     "design_ref": "design/C04.md, DESIGN.md §4 C04",
 }
 
@@ -209,37 +209,7 @@ def shrink(ctx, case):
         cands = [ops[:k] + ops[k + 1:] for k in range(len(ops))]
         for cc, x in zip(diff_side(ctx, me, [_mk(w, x) for x in cands]), cands):
             v = judge(ctx, cc)
-            if v and v[0] == "spec" and not known(ctx, cc):
+            if v and v[0] == "spec":
                 cc["why"] = v[1]; best = cc; ops = x; changed = True
                 break
     return best
-
-
-def known(ctx, c):
-    """the open finding of C01 (hop-limit-left-by-refused-proxy) is reachable through the editors as well;
-    it is listed for C04 under the same signature name.  `edit` lines: the request code is read from the wire."""
-    w = c["input"].split()
-    if w[0] == "build":
-        return B.known(ctx, c)
-    code = wire_code(w[1], w[3])
-    fi, s = fields(c["impl"]), c["spec"]
-    if not fi or not (1 <= code < 32):
-        return None
-    bad = B.refused_changes(c["input"], fi)
-    if not bad:
-        return None
-    for k, op, before, after in bad:
-        if not (op[0] in "OIU" and op[1:].split(":")[0] in ("35", "39")):
-            return None
-        if not (0 <= int(after.split(".")[0]) - int(before.split(".")[0]) <= 4):
-            return None
-    if in_domain(c["input"]) and (fi.get("hdr") == "0" or fi["reparse"] != "ok " + B.d3(w[1], fi["built"])):
-        return None
-    if s and s != "skip":
-        spat = s.split(" ")[0][4:]
-        spat = "" if spat == "-" else spat
-        if rc_pattern(fi.get("steps")) != spat:
-            return None
-        if not any(fi["reparse"] == "ok " + sm and fi["bytes"] == sb for tag, sm, sb in s_alts(s)):
-            return None
-    return "hop-limit-left-by-refused-proxy"
